@@ -9,6 +9,16 @@ INT_TYPES = ("i32", "i64")
 ENGINE_TYPE = {"i32": "Int32", "i64": "Int64", "bool": "Boolean", "text": "Utf8"}
 
 
+def parse_one(sx):
+    from . import sqlast
+    return sqlast.parse(sx)
+
+
+def show_one(a):
+    from . import sqlast
+    return sqlast.show(a)
+
+
 def sx_value(cell):
     if cell == "N":
         return "N"
@@ -368,6 +378,20 @@ class Gen:
             aggs = []  # (sql, sx, ty)
 
             def mk_agg(ty_want=None):
+                a = mk_agg0(ty_want)
+                if self.o.get("agg_filter", True) and r.chance(15):
+                    # agg(x) FILTER (WHERE p): every aggregate here skips NULL inputs, so the reference side is
+                    # agg(CASE WHEN p THEN x END) (count(*) counts the non-NULL constant)
+                    p = self.expr(scopes, "bool", 1, classes, False, corr)
+                    sx = parse_one(a[1])
+                    if sx[0] == "countstar":
+                        sx = ["count", "0", ["const", ["b", "1"]]]
+                    sx[2] = ["case", [[parse_one(p[1]), sx[2]]], ["const", "N"]]
+                    classes.add("agg_filter")
+                    return "%s FILTER (WHERE %s)" % (a[0], p[0]), show_one(sx), a[2]
+                return a
+
+            def mk_agg0(ty_want=None):
                 fn = r.choice(["countstar", "count", "sum", "min", "max", "min", "max"]) if ty_want is None else \
                     (r.choice(["countstar", "count", "sum"]) if ty_want == "i64" else r.choice(["min", "max"]))
                 if ty_want == "bool":
